@@ -76,6 +76,11 @@ MEMBERS = [
     # a public method behind a functools.wraps decorator: its command has the parameters of the decorated function
     ("    @logged\n    def bump{s}(self, amount: int, step: int = 1) -> int:\n        '''Bumps.'''\n        return amount + step\n",
      ("bump{s}", [("amount", "pos"), ("step", "opt")])),
+    # mixed-case member names: the command is named after the member, only underscores become dashes
+    ("    def resetStats{s}(self, hardReset: bool = False) -> int:\n        '''Resets.'''\n        return 3\n",
+     ("resetStats{s}", [("hardReset", "flag")])),
+    ("    def reload_Config{s}(self, Path: str = 'x') -> str:\n        '''Reloads.'''\n        return Path\n",
+     ("reload_Config{s}", [("Path", "opt")])),
     # inherited public methods overridden without a docstring of their own: the description is the inherited one (inspect.getdoc)
     ("    def lock(self) -> None:\n        super().lock()\n", "override:lock"),
     ("    async def flush(self, return_exceptions: bool = False) -> None:\n        await super().flush(return_exceptions)\n", "override:flush"),
@@ -169,7 +174,7 @@ class C16Engine(Engine):
             "subclass, or width < 40 or > 200. Distinct = case hash.")
     assumptions = ["the session is driven in-process through a real asyncio.StreamReader and a recording writer (vt/ctl/harness.py)",
                    "API table written from the documentation, independent of inspect.getmembers"]
-    bounds = {"widths": "1..1000", "generated members": "<=4 of 26 templates", "subclass depth": "<=2"}
+    bounds = {"widths": "1..1000", "generated members": "<=4 of 28 templates", "subclass depth": "<=2"}
 
     def strategies(self, tier: str):
         return [("default", st.binary(min_size=NB, max_size=NB).map(decode), 1200 if tier == "quick" else 30000)]
@@ -310,7 +315,7 @@ class C16Engine(Engine):
             calls = {"extra_count": ("extra-count{s} 4 --label z", "4z"), "toggle_thing": ("toggle-thing{s} --fast", "True"),
                      "sum_all": ("sum-all{s} 1 2 3", "6"), "wait_a_bit": ("wait-a-bit{s} --rounds 3", "3"), "extra_info": ("extra-info{s}", "info"),
                      "knob": ("knob{s} 5", "ok"), "scale": ("scale{s} 21 --offset 1", "43"), "filter": ("filter{s}- --pattern q", "q"),
-                     "deep__scan": ("deep--scan{s} 2", "2"), "shift_by": ("shift-by{s} 3 --times 2", "6"), "tag_it": ("tag-it{s} ab --times 2", "abab"), "maybe_num": ("maybe-num{s} --n 5 --label q", "5-q"), "ratio_of": ("ratio-of{s} 1 --whole 4", "0.25"), "set_mode": ("set-mode{s} --mode slow", "SLOW"), "fancy": ("fancy{s}", "7"), "bump": ("bump{s} 4 --step 2", "6")}
+                     "deep__scan": ("deep--scan{s} 2", "2"), "shift_by": ("shift-by{s} 3 --times 2", "6"), "tag_it": ("tag-it{s} ab --times 2", "abab"), "maybe_num": ("maybe-num{s} --n 5 --label q", "5-q"), "ratio_of": ("ratio-of{s} 1 --whole 4", "0.25"), "set_mode": ("set-mode{s} --mode slow", "SLOW"), "fancy": ("fancy{s}", "7"), "bump": ("bump{s} 4 --step 2", "6"), "resetStats": ("resetStats{s}", "3"), "reload_Config": ("reload-Config{s} --Path q", "q")}
             for name in sorted(table):
                 base = name[: len(name) - len(sfx)] if sfx and name.endswith(sfx) else name
                 key = base.rstrip("_") if base.rstrip("_") in calls else base
